@@ -495,7 +495,19 @@ def same_region(A: list, B: list, tol: Fraction) -> bool:
 
 
 def vspec(r: Rectangle) -> list:
-    return list(r.vector_spec)
+    """what a rectangle IS — centre, shape, region read from its own attributes — in the layout of a vector spec.  (Not
+    through `Rectangle.vector_spec`: that accessor is part of the writers under test; `vector_spec_faithful` compares it.)"""
+    return [r.center.x, r.center.y, r.shape.w, r.shape.h, r.region]
+
+
+def vector_spec_faithful(ctx: Ctx, clause: str, inp: Any, rects) -> None:
+    """`Rectangle.vector_spec` (shared by Die.write_yaml and Allocation.write_yaml) must report the rectangle as it is,
+    whatever its marks (fixed / hard) and region."""
+    for r in rects:
+        got = list(r.vector_spec)
+        if not typed_eq(plain(got), plain(vspec(r))):
+            ctx.spec_fail(clause, inp, {"vector_spec": got, "rectangle": vspec(r), "fixed": bool(r.fixed), "hard": bool(r.hard)}, _size(inp))
+            return
 
 
 # =============================================================================== producer: die
@@ -549,7 +561,7 @@ def die_snapshot(d: Die) -> Any:
 def die_obj_wire(d: Die) -> str:
     """the part of a die the writer reads: width height blockages specialised."""
     def rl(rs):
-        return " ".join([str(len(rs))] + [enc(list(r.vector_spec)) for r in rs])
+        return " ".join([str(len(rs))] + [enc(vspec(r)) for r in rs])
     return f"{enc(d.width)} {enc(d.height)} {rl(d.blockages)} {rl(d.specialized_regions)}"
 
 
@@ -569,6 +581,8 @@ def run_die(ctx: Ctx, inp: dict, batch: Batch) -> None:
         return
     exact = inp["fam"] in EXACT and inp["op"][0] != "grid"     # w / ncols is inexact even on dyadic input
     before = die_snapshot(d)
+    vector_spec_faithful(ctx, "die:vector-spec-is-the-rectangle", inp,
+                         list(d.blockages) + list(d.specialized_regions) + list(d.ground_regions) + list(d.fixed_regions))
     try:
         s1 = d.write_yaml()
         s2 = d.write_yaml()
@@ -685,11 +699,32 @@ def gen_alloc(rng) -> dict:
             if rng.random() < 0.5:
                 c.append(rng.choice([0, 1, 2, 3, 7]))
             cells.append(c)
+        # cells that are FIXED, at depth 0 and — the region the writer / reader must not special-case — at depth > 0:
+        # (i) the document itself carries the four-entry form `[rect, alloc, depth, fixed]`;
+        # (ii) the marks are set on the (already refined) object by `initial_allocation(netlist)` with fixed modules that
+        #      coincide with some of its cells (`_detect_fixed_rectangles` marks the SOURCE object's rectangles)
+        mode = rng.choice(["none", "none", "four-entry", "four-entry", "via-netlist"])
+        marknet = None
+        if mode == "four-entry":
+            for c in rng.sample(cells, rng.randint(1, min(3, len(cells)))):
+                if len(c) == 2:
+                    c.append(rng.choice([0, 0, 1, 2, 3]))
+                c.append("fixed")
+        elif mode == "via-netlist":
+            idx = rng.sample(range(len(cells)), rng.randint(1, min(2, len(cells))))
+            for i in idx:
+                if len(cells[i]) == 2:
+                    cells[i].append(rng.choice([1, 2, 3]))
+                elif cells[i][2] == 0 and rng.random() < 0.7:
+                    cells[i][2] = rng.choice([1, 2])
+            mods = {f"F{k}": {"rectangles": [[float(v) for v in cells[i][0][:4]]], "fixed": True} for k, i in enumerate(idx)}
+            mods["S0"] = {"area": 0.25, "center": [W / 2, H / 2]}
+            marknet = write_yaml({"Modules": mods, "Nets": []})
         ops = []
         for _ in range(rng.choice([0, 0, 1, 2])):
             ops.append(rng.choice([["refine", rng.choice([0.3, 0.6, 0.9, 1.0]), rng.randint(1, 3)], ["uniform"], ["griddify"]]))
         return {"producer": "alloc", "fam": fam, "kind": "tree", "cells": cells, "ops": ops, "tofile": rng.random() < 0.1,
-                "reread": rng.choice(REREAD_FACTORS)}
+                "reread": rng.choice(REREAD_FACTORS), "marknet": marknet}
     # pipeline
     xs, ys = cuts(rng, fam, W, rng.randint(0, 3)), cuts(rng, fam, H, rng.randint(0, 3))
     nx, ny = len(xs) - 1, len(ys) - 1
@@ -746,13 +781,20 @@ def alloc_snapshot(a: Allocation) -> Any:
 
 def alloc_obj_wire(a: Allocation) -> str:
     """the part of an allocation its writer reads: rectangle vector, ratio map, depth and the `fixed` mark of every cell."""
-    cells = [[list(c.rect.vector_spec), dict(c.alloc), c.depth, bool(c.rect.fixed)] for c in a.allocations]
+    cells = [[vspec(c.rect), dict(c.alloc), c.depth, bool(c.rect.fixed)] for c in a.allocations]
     return enc(cells)
 
 
 def build_alloc(inp: dict) -> Allocation:
     if inp["kind"] == "tree":
         a = Allocation(copy.deepcopy(inp["cells"]))
+        if inp.get("marknet"):
+            # `initial_allocation` marks the rectangles of THIS object that fixed modules of the netlist cover (its result is
+            # a new allocation; the object written below is the source, now carrying marks on cells of any depth)
+            try:
+                a.initial_allocation(Netlist(inp["marknet"]), True)
+            except (AssertionError, ZeroDivisionError):
+                pass
     else:
         net = Netlist(inp["netlist"])
         d = Die(copy.deepcopy(inp["die"]), net)
@@ -783,7 +825,7 @@ def alloc_parse_expected(tree1: Any, a2: Allocation | None) -> Any:
             cells = getattr(probe, "_allocations", None)
             if cells is None:
                 cells = probe.allocations
-            return [[list(c.rect.vector_spec), dict(c.alloc), c.depth, bool(c.rect.fixed)] for c in cells]
+            return [[vspec(c.rect), dict(c.alloc), c.depth, bool(c.rect.fixed)] for c in cells]
         except AssertionError:
             return "err:Assert"
         except (AttributeError, TypeError):
@@ -793,7 +835,7 @@ def alloc_parse_expected(tree1: Any, a2: Allocation | None) -> Any:
                         "(skipped for documents the full constructor rejects)")
     if a2 is None:
         return None
-    return [[list(c.rect.vector_spec), dict(c.alloc), c.depth, bool(c.rect.fixed)] for c in a2.allocations]
+    return [[vspec(c.rect), dict(c.alloc), c.depth, bool(c.rect.fixed)] for c in a2.allocations]
 
 
 def same_after_ops(a: Allocation, b: Allocation) -> str | None:
@@ -843,6 +885,9 @@ def run_alloc(ctx: Ctx, inp: dict, batch: Batch) -> Allocation | None:
         Rectangle.undefine_epsilon()
         return None
     before = alloc_snapshot(a)
+    vector_spec_faithful(ctx, "alloc:vector-spec-is-the-rectangle", inp, [c.rect for c in a.allocations])
+    if any(c[1] and c[0][4] != "_" for c in before):
+        ctx.count("alloc:fixed-cell-in-specialised-region")
     try:
         s1 = a.write_yaml()
         s2 = a.write_yaml()
@@ -858,6 +903,10 @@ def run_alloc(ctx: Ctx, inp: dict, batch: Batch) -> Allocation | None:
     ctx.count("alloc:kind:" + inp["kind"])
     ctx.count("alloc:fam:" + inp["fam"])
     ctx.count("alloc:depth>0" if any(c[3] > 0 for c in before) else "alloc:depth=0")
+    if any(c[1] and c[3] > 0 for c in before):
+        ctx.count("alloc:fixed-and-refined-cell")
+    if any(c[1] and c[3] == 0 for c in before):
+        ctx.count("alloc:fixed-unrefined-cell")
     with tempfile.TemporaryDirectory() as td:
         fn = os.path.join(td, "alloc.yaml")
         # the document is handed back AS TEXT (`Allocation(a.write_yaml())`), always; a tenth of the cases also go through
@@ -1038,7 +1087,7 @@ def netgen_dump(data) -> str:
 def netlist_summary(n: Netlist) -> dict:
     return {"modules": [{"name": m.name, "hard": m.is_hard, "fixed": m.is_fixed, "terminal": m.is_terminal,
                          "area": dict(m.area_regions), "center": None if m.center is None else [m.center.x, m.center.y],
-                         "rects": [list(r.vector_spec) for r in m.rectangles]} for m in n.modules],
+                         "rects": [vspec(r) for r in m.rectangles]} for m in n.modules],
             "nets": [[[m.name for m in e.modules], e.weight] for e in n.edges]}
 
 
@@ -1313,7 +1362,7 @@ def _nl_expected(text_or_tree) -> tuple[Any, float]:
         Rectangle.undefine_epsilon()
     mods = []
     for m in n.modules:
-        rects = sorted([list(r.vector_spec)[:4] + [r.region] for r in m.rectangles], key=lambda r: [float(x) for x in r[:4]])
+        rects = sorted([vspec(r) for r in m.rectangles], key=lambda r: [float(x) for x in r[:4]])
         mods.append([m.name, m.is_terminal, m.is_hard, m.is_fixed, [[k, float(v)] for k, v in m.area_regions.items()], rects])
     return [mods, [[[x.name for x in e.modules], float(e.weight)] for e in n.edges]], eps_a
 
